@@ -58,8 +58,11 @@ PROPS = {
     'C04': _hyb('C04', '_find_next_character (least position >= start holding one of the characters, else len)',
                 'read_cgsmiles(render(ast)) == denote(ast) exhaustively to 4 node tokens (quick) / 6 (thorough) and randomly to 14; the 280-line scanner itself is outside pyvc.', _T_EXT),
     'C05': _hyb('C05', '_find_next_character', 'read(shorthand) isomorphic to denote(expand(ast)) and identical numbering for multiplied nodes over G1 with multipliers at every position.', _T_EXT),
-    'C06': _bnd('C06', 'stepwise resolution == flattened two-level string; resolve / resolve_iter / resolve_all agree; each coarse graph is the previous fine graph.',
-                'resolve() is a composition over callees that are not all under contract yet.', _T_EXT),
+    'C06': _hyb('C06', 'MoleculeResolver.resolve at every intermediate (coarse) level: the level counter advances by one, the returned coarse graph IS the previous '
+                'fine graph (same object, same nodes and bonds), its atom names have become the fragment names, and every step is called in a state that '
+                'satisfies its contract (resolve_disconnected_molecule -> edges_from_bonding_descrpt -> squash_atoms, each discharged separately; '
+                'sort_nodes_by_attr and annotate_fragments assumed); the final all-atom level is outside this contract (pysmiles hydrogen completion)',
+                'stepwise resolution == flattened two-level string; resolve / resolve_iter / resolve_all agree; each coarse graph is the previous fine graph.', _T_EXT),
     'C07': _bnd('C07', 'read_cgsmiles(write_cgsmiles_graph(G)) isomorphic to G over all connected graphs <= 4 nodes x all bond-order assignments 0-4 (quick), <= 6 nodes sampled (thorough), relabelings.',
                 'The DFS writer and the scanner are serialiser/scanner code outside the accepted subset (DESIGN §6 C07).', _T_EXT),
     'C08': _hyb('C08', 'format_bonding == fold of (order symbol + [descriptor]) over the list, every descriptor in order',
@@ -83,9 +86,12 @@ PROPS = {
     'C15': _bnd('C15', 'chirality label stays on its atom; cis/trans independent of cuts and fragment order; stored references form existing paths.',
                 'E/Z interpretation happens inside pysmiles (trusted).', _T_EXT),
     'C16': _hyb('C16', 'merge_graphs (copy isomorphic to the template, membership), find_complementary_bonding_descriptor (every result eligible and complementary, '
-                'OSError iff none), find_open_bonds (node listed under a descriptor iff its list holds it)',
+                'OSError iff none), find_open_bonds (node listed under a descriptor iff its list holds it) and add_fragment (exactly one copy and one bond per growth step, '
+                'between an existing atom and the copy of the drawn partner atom, complementary descriptors of equal order, bond order = that order, partner descriptor consumed)',
                 'connected tree of copies, complementary descriptors of equal order, no descriptor twice, canonical numbering, valence, over G4 sampler configurations.', _T_EXT),
-    'C17': _hyb('C17', '_set_bond_order_defaults (list and dict variants) and _select_bonding_operator (result is offered; with a non-empty table its reactivity is > 0; trusted random.choices)',
+    'C17': _hyb('C17', '_set_bond_order_defaults (list and dict variants), _select_bonding_operator (result is offered; with a non-empty table its reactivity is > 0; trusted random.choices), '
+                'add_fragment (a descriptor with reactivity 0 is never the growth site, a partner with conditional reactivity 0 is never chosen, terminal rule both ways) and '
+                'sample (ghost sum of added fragment masses reaches the target and was below it before the last addition)',
                 'target-weight rule, derived masses vs an independent table, zero reactivities never chosen, terminal rule, same seed => same molecule in and across processes.', _T_EXT),
     'C18': _hyb('C18', 'forward_map_molecule: bead position == sum(w_i x_i) / sum(w_i) over exactly the bead\'s own atoms (reals, per coordinate)',
                 'RDKit round trip with and without conformer, bonded atoms at bonding distance after embedding for all relabelings, weighted mean and translation equivariance.', _T_EXT),
